@@ -1403,12 +1403,23 @@ def plan(prop, tier):
             "selfcheck_runs": 6}
 
 
+SCALE_AT = 5          # run index of the scale probe in each block
+SCALE_EVERY = {"quick": 225, "thorough": 225}
+
+
 def run(prop, rseed, tier, k):
     rng = prng.pyrng(rseed)
+    if k % SCALE_EVERY.get(tier, 10 ** 9) == SCALE_AT:
+        from . import scale
+        return scale.execute(scale.generate(
+            prop, rng, k // SCALE_EVERY.get(tier, 10 ** 9)))
     return execute(generate(prop, rng, tier))
 
 
 def replay(trace):
+    if trace.get("scale"):
+        from . import scale
+        return scale.execute(trace)
     return execute(trace)
 
 
@@ -1418,6 +1429,8 @@ def trace_len(trace):
 
 def shrink(trace, violation, exec_iso):
     sig = violation["signature"]
+    if trace.get("scale"):
+        return trace          # 2-4 operations: nothing to minimise
 
     def ok(tr):
         out = exec_iso(tr)
